@@ -72,6 +72,15 @@ def trace_check(rep, jobs, models, label, want_kinds=("gillespie", "tauleap")):
             continue
         tr = res[1]
         tr["id"] = jid
+        # a run that recorded no state at all (or states that are not finite numbers) cannot be handed to TLC: it is an
+        # outcome of the engine, reported as such
+        flat = [v for st in tr["states"] for row in st for v in row]
+        if not tr["states"] or any(not isinstance(v, int) and not (isinstance(v, float) and v == v and abs(v) != float("inf")) for v in flat):
+            rep.violation("trace/" + label, "rd-trace:%s:%s" % (j[2], "no-state-recorded" if not tr["states"] else "non-finite-state"),
+                          {"kind": j[2], "seed": j[3], "model": models[jid].strengths_dict(), "states": tr["states"][:3]},
+                          replay={"kind": "rd-run", "model": models[jid].strengths_dict(), "engine": j[2], "seed": j[3],
+                                  "max_iter": j[4], "dt": j[5]})
+            continue
         traces.append(tr)
     acc, results = rd_rec.validate(traces)
     for r in results:
@@ -146,6 +155,12 @@ STAT_MODELS = [
          reactions=[{"sub": {}, "prod": {"A": 1}, "kf": Fr(1)}, {"sub": {"A": 1, "B": 1}, "prod": {"B": 1}, "kf": Fr(1, 2)}],
          envs=["a"], space={"type": "grid", "w": 2, "h": 1, "d": 1, "bc": (False, False, False), "hh": 1, "cell_env": [0, 0]},
          state=[[1, 0], [2, 1]]),
+    # a reservoir of two adjacent cells in which the diffusing species is held: jumps between the two change nothing but are
+    # events like any other (they take their waiting time); the free cell is fed by, and drains into, the reservoir
+    dict(name="chemostat-reservoir", species=[{"label": "A", "D": Fr(1), "chstt": {"r": True}}],
+         reactions=[{"sub": {"A": 1}, "prod": {}, "kf": {"c": Fr(1)}}],
+         envs=["r", "c"], space={"type": "grid", "w": 3, "h": 1, "d": 1, "bc": (False, False, False), "hh": 1, "cell_env": [0, 0, 1]},
+         state=[[5, 5, 0]]),
 ]
 
 
@@ -153,7 +168,7 @@ def mk(desc):
     return rd_model.Model(desc["species"], desc["reactions"], desc["envs"], desc["space"], desc["state"])
 
 
-def gillespie_stats(rep, tier, seed):
+def gillespie_stats(rep, tier, seed, names=None):
     """Event frequencies and waiting times against the exact generator computed by TLC."""
     import ctypes
     from ..vlib import build
@@ -161,6 +176,8 @@ def gillespie_stats(rep, tier, seed):
     nev = 40000 if tier == "quick" else 400000
     runs = []
     stat_models = STAT_MODELS + [graph_twin(t) for t in STAT_MODELS if t["space"]["type"] == "grid" and not any(t["space"]["bc"])]
+    if names is not None:
+        stat_models = [t for t in stat_models if t["name"].split("(")[0] in names]
     for di, desc in enumerate(stat_models):
         m = mk(desc)
         tr, ts, traj = rd_rec.record_run(lib, m, "gillespie", seed * 17 + di, nev, cap=None)
